@@ -364,6 +364,8 @@ class World:
         world = self
 
         def start(x):
+            if isinstance(x, list):
+                x = list(x)        # what the consumer sees *now* (a batch may be mutated later)
             fut = world.loop.create_future()
             job = Job(name, x, fut)
             world.jobs.append(job)
@@ -389,6 +391,8 @@ class World:
         world = self
 
         def consume(x):
+            if isinstance(x, list):
+                x = list(x)
             world.delivered[name].append(x)
             world.finished[name].append(x)
             world.log.append(("consumer-started", world.loop.now, name, x))
